@@ -34,10 +34,17 @@ pub const TEXT_APIS: [&str; 7] = [
     "iter", "peeknext", "load", "lfs:Yaml", "lfs:YamlOwned", "lfs:MarkedYaml", "lfs:MarkedYamlOwned",
 ];
 pub const TREE_APIS: [&str; 5] = ["drop", "clone", "eq", "hash", "emit"];
+/// Wide (long, not deep) documents and shallow-but-closed flow nests: nothing may recurse per
+/// *element*, so the whole life cycle must succeed on the 8 MiB stack.
+pub const WIDE_SHAPES: [&str; 5] = ["wide-seq", "wide-map", "wide-flowseq", "wide-flowmap", "flow-closed-200"];
+pub const WIDE_APIS: [&str; 6] = ["iter@256k", "load", "roundtrip:Yaml", "roundtrip:YamlOwned", "roundtrip:MarkedYaml", "roundtrip:MarkedYamlOwned"];
 
 pub fn shape_class(shape: &str) -> &'static str {
     if shape.starts_with("randnest:") {
         return "block";
+    }
+    if shape.starts_with("wide-") || shape == "flow-closed-200" {
+        return "wide";
     }
     match shape {
         "seq" | "expkey" | "alt" | "mapnl" | "seq-then-flow" | "seq-dedent" => "block",
@@ -91,6 +98,43 @@ pub fn text_for(shape: &str, d: usize) -> String {
         return rand_nest(seed.parse().unwrap_or(0), d);
     }
     match shape {
+        "wide-seq" => {
+            for k in 0..d {
+                s.push_str(if k % 7 == 0 { "- &a x\n" } else if k % 7 == 3 { "- *a\n" } else { "- item\n" });
+            }
+        }
+        "wide-map" => {
+            for k in 0..d {
+                s.push_str(&format!("k{k}: v\n"));
+            }
+        }
+        "wide-flowseq" => {
+            s.push('[');
+            for _ in 0..d {
+                s.push_str("a, ");
+            }
+            s.push_str("z]\n");
+        }
+        "wide-flowmap" => {
+            s.push('{');
+            for k in 0..d {
+                s.push_str(&format!("k{k}: v, "));
+            }
+            s.push_str("z: z}\n");
+        }
+        "flow-closed-200" => {
+            // many documents, each a legal 200-level closed flow nest
+            for _ in 0..(d / 400).max(1) {
+                s.push_str("--- ");
+                for _ in 0..200 {
+                    s.push('[');
+                }
+                for _ in 0..200 {
+                    s.push(']');
+                }
+                s.push('\n');
+            }
+        }
         "seq" => {
             for _ in 0..d {
                 s.push_str("- ");
@@ -281,6 +325,55 @@ fn scenario(shape: &str, depth: usize, api: &str) -> String {
         };
     }
     let text = text_for(shape, depth);
+    if let Some(node) = api.strip_prefix("roundtrip:") {
+        use std::hash::{Hash, Hasher};
+        fn life<T: Clone + PartialEq + Hash>(docs: Vec<T>) -> (usize, u64) {
+            let c = docs.clone();
+            let same = c == docs;
+            let mut h = std::collections::hash_map::DefaultHasher::new();
+            docs.hash(&mut h);
+            let n = docs.len();
+            drop(c);
+            drop(docs);
+            (n, h.finish() ^ u64::from(same))
+        }
+        return match node {
+            "Yaml" => match Yaml::load_from_str(&text) {
+                Ok(docs) => {
+                    let mut out = NullWriter(0);
+                    for d in &docs {
+                        if let Err(e) = YamlEmitter::new(&mut out).dump(d) {
+                            return format!("ERR emit {e:?}");
+                        }
+                    }
+                    let (n, h) = life(docs);
+                    format!("OK {n} documents loaded, cloned, compared, hashed ({h:x}), emitted ({} bytes), dropped", out.0)
+                }
+                Err(e) => format!("ERR {e}"),
+            },
+            "YamlOwned" => match YamlOwned::load_from_str(&text) {
+                Ok(docs) => {
+                    let (n, h) = life(docs);
+                    format!("OK {n} documents loaded, cloned, compared, hashed ({h:x}), dropped")
+                }
+                Err(e) => format!("ERR {e}"),
+            },
+            "MarkedYaml" => match MarkedYaml::load_from_str(&text) {
+                Ok(docs) => {
+                    let (n, h) = life(docs);
+                    format!("OK {n} documents loaded, cloned, compared, hashed ({h:x}), dropped")
+                }
+                Err(e) => format!("ERR {e}"),
+            },
+            _ => match MarkedYamlOwned::load_from_str(&text) {
+                Ok(docs) => {
+                    let (n, h) = life(docs);
+                    format!("OK {n} documents loaded, cloned, compared, hashed ({h:x}), dropped")
+                }
+                Err(e) => format!("ERR {e}"),
+            },
+        };
+    }
     match api {
         "iter" => {
             let mut n = 0u64;
@@ -516,6 +609,19 @@ fn grid(cfg: &Config) -> Vec<Scn> {
     for shape in TREE_SHAPES {
         for api in TREE_APIS {
             for d in depths_for(&mut r) {
+                v.push(Scn { shape: shape.into(), depth: d, api: api.into() });
+            }
+        }
+    }
+    // wide documents: the whole life cycle
+    for shape in WIDE_SHAPES {
+        for api in WIDE_APIS {
+            let mut ds = vec![100_000usize - r.usize(10_000)];
+            if thorough {
+                ds.push(1_000_000 - r.usize(100_000));
+                ds.push(1000);
+            }
+            for d in ds {
                 v.push(Scn { shape: shape.into(), depth: d, api: api.into() });
             }
         }
